@@ -93,7 +93,7 @@ class Run(object):
                     self.known_what = getattr(self, 'known_what', {})
                     self.known_what[key] = f.get('what', '')
                     return False
-        hk = ' '.join('%s=%s' % (k, v) for k, v in sorted(sig.items()) if isinstance(v, (str, int, bool)) and k not in ('got', 'want', 'line', 'detail', 'property', 'query') and len(str(v)) < 60)
+        hk = ' '.join('%s=%s' % (k, v) for k, v in sorted(sig.items()) if isinstance(v, (str, int, bool)) and k not in ('got', 'want', 'line', 'detail', 'property', 'query', 'plain_query', 'msg') and len(str(v)) < 60)
         self.sig_hist[hk] = self.sig_hist.get(hk, 0) + 1
         if self.sig_hist[hk] > 3 and len(self.violations) >= 10:
             self.violations.append((sig, None))
